@@ -60,6 +60,12 @@ pub const STATEMENTS: &[&str] = &[
     "{ st 4; } & kill -s URG $!; wait $!; echo $?", "{ st 6; } & kill -s WINCH $!; wait $!; echo $?",
     // the descriptor limit: descriptor N is invalid, N-1 is the last valid one
     "ulimit -n 20; echo x 20> f8; echo $?; echo y 19> f9; echo $?", "ulimit -n 13; exec 12> f8; echo $?; exec 13> f9; echo $?",
+    // exactly one free descriptor when a pipe is needed: the failed pipe() must leave the table
+    // untouched, so the EXIT trap can still use the free slot
+    "trap 'kill -l 9 3< f0' EXIT; ulimit -n 4; kill -l 15 | kill -l 15", "trap 'kill -l 9 3< f0' EXIT; ulimit -n 4; x=$(kill -l 15); echo \"$x\"",
+    // wait for a specific child while an older child has exited and a younger one is stopped
+    // (on a real kernel the younger child may be gone before the signals are sent: diagnostics of `kill` are discarded)
+    "(exit 3)& pa=$!; (exit 5)& pb=$!; kill -s STOP $pb 2>&-; wait $pa; s1=$?; kill -s CONT $pb 2>&-; wait $pb; echo $s1 $?; unset pa pb s1",
 ];
 
 #[derive(Clone, Debug, PartialEq, Eq, Hash, Serialize, Deserialize)]
